@@ -11,7 +11,7 @@ NUMS = [b"0", b"1", b"2", b"3", b"9", b"10", b"11", b"20", b"100", b"2147483647"
         b"9223372036854775806"]
 SMALL = [b"0", b"1", b"2", b"3", b"10"]
 LEADZ = [b"00", b"01", b"010", b"007"]
-PRE_WORDS = [b"alpha", b"beta", b"rc", b"a", b"b", b"pre", b"Alpha", b"RC", b"x-y", b"dev", b"SNAPSHOT", b"b2", b"-", b"z"]
+PRE_WORDS = [b"alpha", b"beta", b"rc", b"a", b"b", b"pre", b"Alpha", b"Beta", b"BETA", b"RC", b"Rc", b"x-y", b"dev", b"SNAPSHOT", b"b2", b"-", b"z", b"Z", b"A", b"1a", b"0a", b"2-beta", b"-x", b"--", b"7f3c2e1", b"a1", b"-a"]
 PRE_NUMS = [b"0", b"1", b"2", b"10", b"01", b"00", b"-1", b"+1", b"2147483647", b"2147483648", b"9223372036854775807",
             b"9223372036854775808"]
 BUILD = [b"build", b"001", b"sha.5114f85", b"b-1", b"0"]
@@ -55,7 +55,7 @@ def semver_like(rng, sysi, strict=False):
                 e = pick(rng, PRE_NUMS)
             if strict:
                 # SemVer 2.0: numeric identifiers without leading zeros; no sign forms
-                if e in (b"01", b"00", b"-1", b"+1", b"9223372036854775808", b"9223372036854775807", b"2147483648"):
+                if e in (b"01", b"00", b"+1", b"9223372036854775808", b"9223372036854775807", b"2147483648"):
                     e = b"1"
             elif e == b"+1":
                 e = b"1"
@@ -180,3 +180,73 @@ def malformed(rng, sysi):
     if r > 0.95:
         s = s + b"1" * rng.choice([20, 400])
     return bytes(s)
+
+
+def variants(rng, sysi, s):
+    """spellings related to s: trailing zero components (0, 00), leading zeros, case changes,
+    separator changes, an added/removed build tag or prerelease number"""
+    out = []
+    head, sep, tail = s.partition(b"+")
+    core, dash, pre = head.partition(b"-")
+    k = rng.randrange(6)
+    if k == 0:
+        out.append(core + rng.choice([b".0", b".00", b".0.0"]) + dash + pre + sep + tail)
+    elif k == 1:
+        out.append(s + rng.choice([b".0", b".00", b"-0", b".1"]))
+    elif k == 2:
+        out.append(s.swapcase())
+        out.append(s.upper())
+    elif k == 3 and dash:
+        out.append(core + rng.choice([b".", b""]) + pre + sep + tail)
+        out.append(core + dash + pre + rng.choice([b".0", b".00", b"0", b"1"]) + sep + tail)
+    elif k == 4:
+        parts = core.split(b".")
+        i = rng.randrange(len(parts))
+        if parts[i].isdigit():
+            parts[i] = b"0" + parts[i]
+        out.append(b".".join(parts) + dash + pre + sep + tail)
+    elif sysi in (0, 1, 2, 4, 5, 8):
+        out.append(head + b"+" + rng.choice([b"x", b"1", b"build.2"]))
+        out.append(head)
+    elif sysi == 6:
+        if sep:
+            out.append(head + b"+" + tail + rng.choice([b".1", b".x", b".0"]))
+            if b"." in tail:
+                out.append(head + b"+" + tail.rsplit(b".", 1)[0])
+            out.append(head)
+        else:
+            out.append(head + b"+" + rng.choice([b"abc", b"abc.1", b"1", b"1.2"]))
+    return [v for v in out if v != s]
+
+
+import re as _re
+_CORE = _re.compile(rb"^((?:[0-9]+!)?[vV]*)([0-9]+(?:\.[0-9]+)*)")
+
+
+def with_core(rng, sysi, cores):
+    """a generated string whose numeric core is (mostly) one of a few shared cores, so that a pool
+    contains many strings that differ only in qualifier/prerelease/build"""
+    s = gen(rng, sysi)
+    if rng.random() < 0.75:
+        m = _CORE.match(s)
+        if m:
+            s = m.group(1) + pick(rng, cores) + s[m.end():]
+    return s
+
+
+def cores(rng, sysi, k=3):
+    out = []
+    for _ in range(k):
+        n = rng.choice([1, 2, 3, 3, 3]) if sysi not in (0, 1, 2, 4) else 3
+        out.append(b".".join(pick(rng, SMALL) for _ in range(n)))
+    return out
+
+
+# D_mvn (DESIGN 6.4) as a recogniser on strings: dotted numeric prefix, optionally one qualifier token
+# attached by '-' or directly (not by '.'), optionally a number attached directly, by '-' or by '.',
+# optionally -SNAPSHOT (any case).
+_DMVN = _re.compile(rb"^[0-9]+(\.[0-9]+)*(-?[A-Za-z_]+([-.]?[0-9]+)?)?(-[sS][nN][aA][pP][sS][hH][oO][tT])?$")
+
+
+def in_dmvn(s):
+    return bool(_DMVN.match(s))
